@@ -430,3 +430,150 @@ func isSiteResult(p *Program, v ssa.Value, site *ssa.Call) bool {
 	}
 	return false
 }
+
+// ---------------------------------------------------------------------------------------------
+// C19.R10 — a dependency that one constructor of a type wires and another leaves out is nil in the
+// objects of the second: calling a method on it panics (nil interface / nil pointer) for whichever
+// input first reaches that call. For every workspace struct with several constructors (functions
+// returning a composite literal of it) and every interface- or pointer-typed field that some but not
+// all of them set: every use of the field as the receiver of a call — directly or after being handed
+// down as an argument (three levels) — must be under a nil test.
+func constructorCompletenessRule(c *Ctx) {
+	p := c.P
+	type ctor struct {
+		fn     *ssa.Function
+		fields map[string]bool
+	}
+	ctors := map[*types.Named][]ctor{}
+	for _, fn := range p.productFuncs() {
+		if fn.Parent() != nil {
+			continue
+		}
+		for _, rc := range p.returnCases(fn) {
+			if len(rc.Results) == 0 {
+				continue
+			}
+			f, typ, ok := compositeFields(rc.Results[0])
+			if !ok || len(f) == 0 {
+				continue
+			}
+			named, _ := typ.(*types.Named)
+			if named == nil || named.Obj().Pkg() == nil || !strings.HasPrefix(named.Obj().Pkg().Path(), modPKO) {
+				continue
+			}
+			set := map[string]bool{}
+			for k := range f {
+				set[strings.TrimSuffix(k, "#dup")] = true
+			}
+			ctors[named] = append(ctors[named], ctor{fn, set})
+			break
+		}
+	}
+	n := 0
+	for named, cs := range ctors {
+		if len(cs) < 2 {
+			continue
+		}
+		st, _ := named.Underlying().(*types.Struct)
+		if st == nil {
+			continue
+		}
+		for i := 0; i < st.NumFields(); i++ {
+			fld := st.Field(i)
+			switch fld.Type().Underlying().(type) {
+			case *types.Interface, *types.Pointer:
+			default:
+				continue
+			}
+			var missing []string
+			setSomewhere := false
+			for _, k := range cs {
+				if k.fields[fld.Name()] {
+					setSomewhere = true
+				} else {
+					missing = append(missing, shortFuncID(k.fn))
+				}
+			}
+			if !setSomewhere || len(missing) == 0 {
+				continue
+			}
+			n++
+			o := c.Ob(nil, "optional-dependency:"+shortPkg(named.Obj().Pkg().Path())+"."+named.Obj().Name()+"."+fld.Name(), nil, c.rule.Statement)
+			var bad []string
+			for _, fn := range p.productFuncs() {
+				for _, b := range fn.Blocks {
+					for _, in := range b.Instrs {
+						ld, ok := in.(*ssa.UnOp)
+						if !ok {
+							continue
+						}
+						fa, ok := ld.X.(*ssa.FieldAddr)
+						if !ok || namedOf(fa.X.Type()) != named || fieldName(fa.X.Type(), fa.Field) != fld.Name() {
+							continue
+						}
+						if why := p.usedAsReceiverUnguarded(ld, 0); why != "" {
+							bad = append(bad, why)
+						}
+					}
+				}
+			}
+			if len(bad) == 0 {
+				o.OK()
+			} else {
+				o.Fail("%s leaves %s.%s nil, and it is called without a nil test: %s — the first input that reaches that call panics the process", strings.Join(dedupe(missing), ", "), named.Obj().Name(), fld.Name(), strings.Join(dedupe(bad), "; "))
+			}
+		}
+	}
+	c.Ob(nil, "constructors-compared", nil, c.rule.Statement).OK(fmt.Sprintf("%d types with several constructors, %d fields set by some but not all of them", len(ctors), n))
+}
+
+// usedAsReceiverUnguarded: v (a loaded dependency) is the receiver of a call, or is passed to a static
+// callee that uses the parameter that way, without a dominating nil test. Returns a description or "".
+func (p *Program) usedAsReceiverUnguarded(v ssa.Value, depth int) string {
+	if depth > 3 {
+		return ""
+	}
+	for _, r := range referrersOf(v) {
+		ci, ok := r.(ssa.CallInstruction)
+		if !ok {
+			if mi, isMI := r.(*ssa.MakeInterface); isMI {
+				if why := p.usedAsReceiverUnguarded(mi, depth); why != "" {
+					return why
+				}
+			}
+			if ct, isCT := r.(*ssa.ChangeInterface); isCT {
+				if why := p.usedAsReceiverUnguarded(ct, depth); why != "" {
+					return why
+				}
+			}
+			continue
+		}
+		cc := ci.Common()
+		if cc.IsInvoke() && cc.Value == v {
+			if !p.knownNonNil(v, ci.Block()) {
+				return "call of " + cc.Method.Name() + " at " + p.IPos(ci)
+			}
+			continue
+		}
+		callee := staticCallee(cc)
+		if callee == nil || len(callee.Blocks) == 0 {
+			continue
+		}
+		for i, a := range cc.Args {
+			if a != v || i >= len(callee.Params) {
+				continue
+			}
+			if p.knownNonNil(v, ci.Block()) {
+				continue
+			}
+			if why := p.usedAsReceiverUnguarded(callee.Params[i], depth+1); why != "" {
+				return why + " (via " + shortFuncID(callee) + ")"
+			}
+		}
+	}
+	return ""
+}
+
+func init() {
+	addRule("C19", Rule{ID: "C19.R10", Min: 1, Statement: "a dependency that some constructor of a type leaves unset is never called without a nil test", Run: constructorCompletenessRule})
+}
